@@ -7,12 +7,19 @@
 //!   xapp <tlen> <mtu> <init> <n0> <off0> | <k> <l1> <l2> ...
 //!        ExclusiveTermAppender::append_unfragmented_message_bulk against append_unfragmented_message on twin logs handed
 //!        over at (n0, off0): ((resulting offset A, changed words / tails A), (resulting offset B, changed words / tails B))
+//!   sapp <tlen> <mtu> <init> <n0> <off0> <delta> | <k> <l1> <l2> ...
+//!        the shared TermAppender called directly: append_unfragmented_message_bulk / append_fragmented_message_bulk against
+//!        append_unfragmented_message / append_fragmented_message (fragmented when the message exceeds mtu - 32) on twin logs
+//!        handed over at (n0, off0), with active_term_id = init + n0 + delta (delta != 0: the caller sampled the tail in another
+//!        term than the one its fetch-add lands in - both flavours must answer the same error): same observation shape as xapp
 #[path = "../../c04/src/hist.rs"]
 mod hist;
 
 use aeron_rs::concurrent::atomic_buffer::AtomicBuffer;
 use aeron_rs::concurrent::logbuffer::exclusive_term_appender::ExclusiveTermAppender;
 use aeron_rs::concurrent::logbuffer::header::HeaderWriter;
+use aeron_rs::concurrent::logbuffer::term_appender::TermAppender;
+use vcommon::fmt_result;
 use aeron_rs::concurrent::logbuffer::log_buffer_descriptor as lbd;
 use vcommon::client::TestLog;
 use vcommon::{catch, fmt_outcome, payload};
@@ -92,6 +99,62 @@ fn xapp_one(g: &[i64], msg: &[i64], bulk: bool) -> String {
     )
 }
 
+fn sapp_one(g: &[i64], msg: &[i64], bulk: bool) -> String {
+    let (tlen, mtu, init, n0, off0, delta) = (g[0] as i32, g[1] as i32, g[2] as i32, g[3] as i32, g[4] as i32, g[5] as i32);
+    let log = TestLog::new(tlen, mtu, init, n0, off0, hist::SESSION, hist::STREAM);
+    let idx = lbd::index_by_term_count(n0 as i64);
+    let mut app = TermAppender::new(log.term(idx), log.meta(), idx);
+    let hw = HeaderWriter::new(lbd::default_frame_header(&log.meta()));
+    let active = init.wrapping_add(n0).wrapping_add(delta);
+    let total: i64 = msg[1..].iter().sum();
+    let mpl = mtu - 32;
+    let whole = payload(msg[0], total as usize);
+    let r = if bulk {
+        let mut bufs_mem: Vec<Vec<u8>> = Vec::new();
+        let mut at = 0usize;
+        for l in &msg[1..] {
+            bufs_mem.push(whole[at..at + *l as usize].to_vec());
+            at += *l as usize;
+        }
+        let bufs: Vec<AtomicBuffer> = bufs_mem.iter_mut().map(|v| AtomicBuffer::wrap_slice(v)).collect();
+        if total as i32 <= mpl {
+            catch(|| app.append_unfragmented_message_bulk(&hw, bufs, total as i32, hist::harness_rv, active))
+        } else {
+            catch(|| app.append_fragmented_message_bulk(&hw, bufs, total as i32, mpl, hist::harness_rv, active))
+        }
+    } else {
+        let mut m = whole.clone();
+        let buf = AtomicBuffer::wrap_slice(&mut m);
+        if total as i32 <= mpl {
+            catch(|| app.append_unfragmented_message(&hw, &buf, 0, total as i32, hist::harness_rv, active))
+        } else {
+            catch(|| app.append_fragmented_message(&hw, &buf, 0, total as i32, mpl, hist::harness_rv, active))
+        }
+    };
+    let mut prev = [vec![0u8; tlen as usize], vec![0u8; tlen as usize], vec![0u8; tlen as usize]];
+    let d0 = hist::changed_words(&log.term(0), &mut prev[0]);
+    let d1 = hist::changed_words(&log.term(1), &mut prev[1]);
+    let d2 = hist::changed_words(&log.term(2), &mut prev[2]);
+    format!(
+        "({}, ({}, [{}; {}; {}], [{}; {}; {}]))",
+        fmt_result(r),
+        log.active_term_count(),
+        log.raw_tail(0),
+        log.raw_tail(1),
+        log.raw_tail(2),
+        d0,
+        d1,
+        d2
+    )
+}
+
+fn case_sapp(rest: &str) -> String {
+    let parts: Vec<&str> = rest.split('|').collect();
+    let g = ints(parts[0]);
+    let msg = ints(parts[1]);
+    format!("({}, {})", sapp_one(&g, &msg, true), sapp_one(&g, &msg, false))
+}
+
 fn case_xapp(rest: &str) -> String {
     let parts: Vec<&str> = rest.split('|').collect();
     let g = ints(parts[0]);
@@ -105,6 +168,7 @@ fn main() {
         match kind {
             "twin" => case_twin(rest),
             "xapp" => case_xapp(rest),
+            "sapp" => case_sapp(rest),
             other => panic!("unknown case kind {}", other),
         }
     });
